@@ -342,6 +342,12 @@ type UOp struct {
 func (r UOp) String() string  { return r.Str }
 func (r UOp) Context() string { return r.Ctx }
 
+// LOp: a user-defined operator whose type is not comparable (slice-backed): [text, context]
+type LOp []string
+
+func (r LOp) String() string  { return r[0] }
+func (r LOp) Context() string { return r[1] }
+
 var errClasses = map[int]error{}
 
 func errOf(n int) error {
@@ -413,6 +419,9 @@ func opOf(s string) stackage.Operator {
 		p := strings.SplitN(s[1:], ":", 3)
 		id, _ := strconv.Atoi(p[0])
 		return UOp{ID: id, Str: unhx(p[1]), Ctx: unhx(p[2])}
+	case s[0] == 'v':
+		p := strings.SplitN(s[1:], ":", 3)
+		return LOp{unhx(p[1]), unhx(p[2]), p[0]}
 	}
 	panic("bad op " + s)
 }
@@ -425,6 +434,8 @@ func opStr(o stackage.Operator) string {
 		return "c" + strconv.Itoa(int(tv))
 	case UOp:
 		return fmt.Sprintf("u%d:%s:%s", tv.ID, hx(tv.Str), hx(tv.Ctx))
+	case LOp:
+		return fmt.Sprintf("v%s:%s:%s", tv[2], hx(tv[0]), hx(tv[1]))
 	}
 	return "u?"
 }
